@@ -139,8 +139,10 @@ def c07Entry (k : MKind) (n : Nat) (learning : Aid → Bool)
      | .allStep => sameSet (keys o) learners
      | .turnBased => keys o == learners.take 1
      | .dynamic => sameSet (keys o) e.ghost.nominated) &&
-    -- progress: somebody can act (for the dynamic manager: if the simulation nominated anybody)
-    (!(keys o).isEmpty || (k == .dynamic && e.ghost.nominated.isEmpty))
+    -- progress: somebody can act (dynamic manager: if the simulation nominated anybody;
+    -- all-step manager: if there is a learning agent at all)
+    (!(keys o).isEmpty || (k == .dynamic && e.ghost.nominated.isEmpty) ||
+      (k == .allStep && learners.isEmpty))
   | .step _, .stepOk o =>
     o.allDone ||
     ((match k with
